@@ -10,7 +10,7 @@ from harness import core, py2lean, py2lean_ext, instantiate
 from harness.core import Outcome, f2b, b2f
 
 ID = "C07"
-LEAN_TARGETS = ["BeyondVerif.Props.C07"]
+LEAN_TARGETS = ["BeyondVerif.Props.C07", "BeyondVerif.Props.C07Native"]
 THEOREMS = [
     "BeyondVerif.C07.wrapper_eq_reference",
     "BeyondVerif.C07.wrapper_timedelta",
@@ -24,6 +24,22 @@ THEOREMS = [
     "BeyondVerif.C07.beta_gravity_constants",
     "BeyondVerif.C07.beta_a0_reference",
     "BeyondVerif.C07.beta_a0_kepler_law",
+    "BeyondVerif.C07.beta_consts_reference",
+    "BeyondVerif.C07.beta_unkozai_reference",
+    "BeyondVerif.C07.beta_s4_reference",
+    "BeyondVerif.C07.beta_drag_coef_reference",
+    "BeyondVerif.C07.beta_ecc_coef_reference",
+    "BeyondVerif.C07.beta_d_reference",
+    "BeyondVerif.C07.beta_dot_reference",
+    "BeyondVerif.C07.beta_nodecf_reference",
+    "BeyondVerif.C07.beta_init_reference",
+    "BeyondVerif.C07.beta_secular_reference",
+    "BeyondVerif.C07.beta_deltaM_guard",
+    "BeyondVerif.C07.beta_elements_reference",
+    "BeyondVerif.C07.beta_long_reference",
+    "BeyondVerif.C07.kepler_unit",
+    "BeyondVerif.C07.beta_short_reference",
+    "BeyondVerif.C07.beta_frame_reference",
     "BeyondVerif.Sgp4Wrap.ord2ymd_spec",
     "BeyondVerif.Sgp4Wrap.jday_ymd2ord",
 ]
